@@ -222,6 +222,13 @@ func checkC13(tier, replay string) int {
 		}
 	}
 	jobs = append(jobs, job{"three-threads", 1, 0, 1})
+	tinyBound := 2
+	if tier == "thorough" {
+		tinyBound = 3
+	}
+	for sh := 0; sh < 16; sh++ {
+		jobs = append(jobs, job{"shared-copies-tiny", tinyBound, sh, 16})
+	}
 	var execs, diverged, maxPoints int64
 	outcomes := map[string]int64{}
 	perScen := map[string]int64{}
@@ -324,7 +331,7 @@ func checkC13(tier, replay string) int {
 	ctx.Cov["fresh_processes_for_text_forms"] = procs
 	ctx.Cov["distinct_text_results_seen"] = distinctTexts
 	ctx.Cov["race_pass_runs"] = raceRuns
-	ctx.Cov["rule"] = "the current sources of the library packages are rewritten (a scheduling point before every statement; functions that iterate maps run as atomic steps), compiled with go build -overlay and run under a cooperative scheduler; for each scenario (two copies sharing backing arrays, two architectures, Assemble||Dump, Assemble||GetInfo, Assemble||text conversions, same value twice, three threads) every schedule with at most 1 preemption (2 for the small shared-copies scenario; thorough: 2 for every two-thread scenario) is executed on the real code; oracle per schedule: each call returns what it returns alone and every input policy incl. spare slice capacity is bit-identical; a reported schedule is replayed twice in a fresh process; plus all operation histories of length <= 4 over 8 operations (incl. compiling two values that share one Syscalls slice for two architectures), text forms over 512 calls in fresh processes, and a separate free-running -race pass of the same bodies"
+	ctx.Cov["rule"] = "the current sources of the library packages are rewritten (a scheduling point before every statement; functions that iterate maps run as atomic steps), compiled with go build -overlay and run under a cooperative scheduler; for each scenario (two copies sharing backing arrays, two architectures, Assemble||Dump, Assemble||GetInfo, Assemble||text conversions, same value twice, three threads) every schedule with at most 1 preemption (2 for the small and the tiny shared-copies scenarios; thorough: 2 for every two-thread scenario and 3 for the tiny one) is executed on the real code; oracle per schedule: each call returns what it returns alone and every input policy incl. spare slice capacity is bit-identical; a reported schedule is replayed twice in a fresh process; plus all operation histories of length <= 4 over 8 operations (incl. compiling two values that share one Syscalls slice for two architectures), text forms over 512 calls in fresh processes, and a separate free-running -race pass of the same bodies"
 	ctx.Sample(map[string]any{"scenario": "shared-copies", "threads": []string{"Assemble(p)", "Assemble(copy of p sharing Syscalls/Names/Conditions arrays)"}, "schedule_example": "thread 0 runs to filter.go:2xx, preempted, thread 1 runs to completion, thread 0 resumes"})
 	ctx.Assumptions = []string{"scheduling points at statement granularity; unsynchronised accesses inside one statement are covered by the separate -race pass", "map iteration order cannot be controlled; it is covered by repetition across processes (miss probability < 1e-14 per process for the 2-key flag map)"}
 	return ctx.Finish()
